@@ -514,6 +514,10 @@ ORDER_INSENSITIVE_CALLS = {"sorted", "len", "set", "frozenset", "sum", "any", "a
 
 # sites the classifier cannot decide, confirmed by reading (key: "qual|iterable text")
 HASHORD_TABLE = {
+    "HyperGraph.neighborhood_compress_cost":
+        "edges of the region are grouped per set of incident nodes in hash order, but each group "
+        "is only multiplied together (edges_size) and the per-group integer costs are summed: "
+        "commutative, the estimate does not depend on the order",
     "ContractionProcessor.simplify_hadamard":
         "set of frozensets of *integer* index ids (the processor maps labels to ints in order "
         "of first appearance), so hashing and hence iteration order is seed-independent",
@@ -577,6 +581,11 @@ def _element_kind(ctx, f, e, depth=0):
         if "label" in kinds:
             return "label"
     low = txt.lower()
+    # hypergraph accessors: a node's entries are index labels, an edge's entries are nodes
+    if "get_node(" in low and "get_edge(" not in low:
+        return "label"
+    if "get_edge(" in low and "get_node(" not in low:
+        return "int"
     lab = any(k in low for k in LABELISH)
     it = any(k in low for k in INTISH)
     if lab and not it:
@@ -651,9 +660,14 @@ def rule_hashord(ctx):
                 par = f.module.parents.get(n)
                 is_iter_pos = (isinstance(par, (ast.For, ast.comprehension)) and par.iter is n) or \
                     (isinstance(par, ast.Call) and n in par.args) or isinstance(par, ast.Starred)
-                if not is_iter_pos or not _is_set_expr(ctx, f, n):
+                # <set>.pop() hands out "the first" element in hash order
+                gp = f.module.parents.get(par) if par is not None else None
+                is_pop = isinstance(par, ast.Attribute) and par.attr == "pop" and par.value is n and \
+                    isinstance(gp, ast.Call) and gp.func is par and not gp.args
+                if not (is_iter_pos or is_pop) or not _is_set_expr(ctx, f, n):
                     continue
-                cons, how = _consumer(f, n)
+                cons, how = ("sensitive", "asked for an arbitrary element with .pop()") if is_pop \
+                    else _consumer(f, n)
                 if cons == "none":
                     continue
                 kind = _element_kind(ctx, f, n)
@@ -708,4 +722,15 @@ def rule_hashord(ctx):
     return r
 
 
-RULES = [rule_plumb, rule_global, rule_preset, rule_hashord]
+def rule_noshare(ctx):
+    """Shared with C04-COPY: 'regardless of what was called before' includes earlier
+    non-inplace calls on the same tree - they work on a copy, and the copy shares no
+    mutable state (e.g. the already-optimised subtree cache) with its source."""
+    from .c04 import rule_copy as src
+
+    return C.reuse_rule(ctx, src, "C04-COPY", "C17-NOSHARE",
+                        "a non-inplace seeded operation leaves no trace in its source tree",
+                        lambda i: True, 20)
+
+
+RULES = [rule_plumb, rule_global, rule_preset, rule_hashord, rule_noshare]
